@@ -42,7 +42,7 @@ func genC03IP(c *lib.Ctx) {
 	p := thePeer
 	r := c.Rand.Fork("c03ip")
 	ipc := &client.IPClient{Log: logger}
-	n := c.Scale(220, 5000)
+	n := c.Scale(300, 5000)
 	c.Comment("history C03 IP")
 	var lastGenuine []byte
 	for i := 0; i < n; i++ {
@@ -368,7 +368,7 @@ func genC05IP(c *lib.Ctx) {
 	var lastGenuine []byte
 	// number of mutants is learnt from a dry construction
 	probe := mutants(r, make([]byte, 48), reqInfo{raw: make([]byte, 48)}, make([]byte, 48))
-	rounds := c.Scale(2, 24)
+	rounds := c.Scale(3, 30)
 	total := 0
 	for round := 0; round < rounds; round++ {
 		for mi := 0; mi < len(probe); mi++ {
